@@ -549,7 +549,7 @@ func readContractLines(path string) ([]string, []int, error) {
 }
 
 var clauseKeywords = map[string]bool{
-	"func": true, "spec": true, "pureany": true, "purefunc": true, "lemma": true, "axiom": true, "pureiface": true, "final": true,
+	"func": true, "spec": true, "pureany": true, "purefunc": true, "detfunc": true, "lemma": true, "axiom": true, "pureiface": true, "final": true,
 	"props": true, "requires": true, "ensures": true, "let": true, "loop": true, "assigns": true,
 	"pure": true, "functional": true, "inline": true, "trusted": true, "callback": true, "ghost": true, "on": true,
 	"maypanic": true, "attr": true, "assume": true, "package": true, "nobody": true, "cover": true, "token": true, "purecall": true,
@@ -739,6 +739,14 @@ func (cs *ContractSet) LoadFile(path, pkgPath string, isSpec bool) error {
 			// name are assumed not to write caller-visible memory (an assumption, listed in evidence)
 			for _, f := range strings.Fields(rest) {
 				cs.PureIface["purefunc:"+f] = true
+			}
+			cur = nil
+		case "detfunc":
+			// detfunc Field [Field ...]: as purefunc, and the results are a function of the function
+			// value and its arguments (zz_detfunc.go)
+			for _, f := range strings.Fields(rest) {
+				cs.PureIface["purefunc:"+f] = true
+				cs.PureIface["detfunc:"+f] = true
 			}
 			cur = nil
 		case "purecall":
